@@ -366,3 +366,8 @@ CHECKS["C16"]["parts"].append(
     {"name": "fuzz", "pkg": ROOT, "test": "FuzzVerifC16", "kind": "fuzz", "build_flags": ["-fuzz=FuzzVerifC16"], "thorough_only": True,
      "shards_thorough": 1, "fuzztime_thorough": "150s", "fuzz_workers": 12, "timeout_thorough": 900})
 CHECKS["C16"]["rule"] += "; thorough adds a native go-fuzz campaign that decodes bytes into argument vectors (non-trivial there = inputs that reached new coverage)"
+CHECKS["C16"]["parts"].append(
+    {"name": "e2e", "pkg": ROOT, "test": "TestVerifC16E2E", "kind": "rapid", "needs_binaries": [("./cmd/olric-server", "olric-server")],
+     "checks_quick": 150, "checks_thorough": 5000, "shards_quick": 4, "shards_thorough": 16, "timeout_quick": 400, "timeout_thorough": 2400})
+CHECKS["C16"]["level_text"] += (" End to end (part e2e): a real olric-server child process receives generated argument vectors and raw byte streams (RESP fragments with wrong type bytes, negative, huge and non-numeric lengths, truncated frames, inline commands, noise) "
+                                "on fresh TCP connections; after each one the process must be alive and answer PING on a new connection.")
